@@ -75,10 +75,10 @@ def task(spec, indent_kind, sep_len, column_kind, label):
         getattr(B, step[0])(*step[1:])
     text = B.text()
     holes = [(k, mk(B.cs[a:b])) for k, a, b in B.holes if k in ("V", "SV", "K", "F", "B", "BC", "W")]
-    distinct = [[B.sl(ex[2]) for ex in B.expect if ex[0] == "Entry"], [B.sl(ex[1]) for ex in B.expect if ex[0] == "String"]]
+    distinct = [[B.sl(ex[2]) for ex in B.expect if ex[0] == "Entry" and ex[2] is not None], [B.sl(ex[1]) for ex in B.expect if ex[0] == "String"]]
     for ex in B.expect:
         if ex[0] == "Entry":
-            distinct.append([B.sl(fk) for fk, v in ex[3]])
+            distinct.append([B.sl(fk) for fk, v in ex[3] if fk is not None])
     indent = {"empty": "", "space": " ", "tab": "\t"}.get(indent_kind)
     if indent is None:
         indent = eng.sym_str("i", 2, " \t")
@@ -156,6 +156,7 @@ def specs(tier):
         pairs.append((f"pair-{a}-{b}", [small[a], ("sep", 1), small[b]]))
     # string definition before / after its use
     pairs.append(("strref-before", [("string", 1, 2, 0), ("sep", 1), ("entry", 1, 1, 1, 0, False)]))
+    pairs.append(("refchain", [("refchain",)]))
     pairs.append(("strref-after", [("entry", 1, 1, 1, 0, False), ("sep", 1), ("string", 1, 2, 0)]))
     triples = []
     if big:
